@@ -380,15 +380,23 @@ impl<'tcx> Cx<'tcx> {
         }
     }
 
-    fn body(&self, did: DefId, body: &Body<'tcx>) -> String {
+    fn body(&self, did: DefId, body: &Body<'tcx>, promoted: Option<usize>) -> String {
         let tcx = self.tcx;
         let mut s = String::new();
         let kind = tcx.def_kind(did);
+        let path = match promoted {
+            Some(i) => format!("{}::promoted[{}]", tcx.def_path_str(did), i),
+            None => tcx.def_path_str(did),
+        };
+        let kindstr = match promoted {
+            Some(_) => "Promoted".to_string(),
+            None => format!("{:?}", kind),
+        };
         let _ = write!(
             s,
             "{{\"path\":{},\"kind\":{},\"span\":{}",
-            esc(&tcx.def_path_str(did)),
-            esc(&format!("{:?}", kind)),
+            esc(&path),
+            esc(&kindstr),
             self.span(tcx.def_span(did))
         );
         // parent chain (closure -> enclosing fn; method -> impl)
@@ -653,7 +661,12 @@ impl rustc_driver::Callbacks for Cb {
                 s.push(',');
             }
             n += 1;
-            s.push_str(&cx.body(did, body));
+            s.push_str(&cx.body(did, body, None));
+            for (pi, pb) in tcx.promoted_mir(did).iter_enumerated() {
+                s.push(',');
+                n += 1;
+                s.push_str(&cx.body(did, pb, Some(pi.as_usize())));
+            }
         }
         s.push(']');
         // ADTs
